@@ -87,6 +87,13 @@ class Fuzz:
             self.offer(Block, raw, bytes(m), bid, states, now, w_base, ("flip", bit), header_len)
         for cut in range(len(raw)):
             c["truncations"] += 1
+            if cut % 2 == 0:
+                # the genuine bytes are decoded right before the truncated ones (what a node sees when a peer resends a
+                # block cut short): decoding must not depend on what was decoded before
+                try:
+                    Block.deserialize(raw)
+                except Exception:
+                    pass
             self.offer(Block, raw, raw[:cut], bid, states, now, w_base, ("truncate", cut), header_len)
         self.distinct += len(bits) + len(raw)
 
